@@ -897,6 +897,9 @@ class BaseWorkflow(object, metaclass=abc.ABCMeta):
             task.lst = task.lft - task.remaining_work_amount
 
         # 3. Calculate PERT information of all tasks
+        # (tasks whose lst/lft have been calculated in this call; a value itself cannot
+        # be the marker because a latest finish time may be 0 or slightly negative)
+        calculated_task_set = set(output_task_set)
         while len(output_task_set) > 0:
             prev_task_set = set()
             for output_task in output_task_set:
@@ -926,12 +929,13 @@ class BaseWorkflow(object, metaclass=abc.ABCMeta):
                     # smallest lft wins; on a tie the smaller lst (not the task visited
                     # last in this unordered set)
                     if (
-                        pre_lft < 0
+                        prev_task not in calculated_task_set
                         or pre_lft > lft
                         or (pre_lft == lft and prev_task.lst > lst)
                     ):
                         prev_task.lst = lst
                         prev_task.lft = lft
+                        calculated_task_set.add(prev_task)
                     prev_task_set.add(prev_task)
 
             output_task_set = prev_task_set
